@@ -1112,6 +1112,10 @@ def _build_subscript(
     **kwargs: Any,
 ) -> Expr:
     left = _build(node.value, parent, **kwargs)
+    # Only a tuple written directly as the subscript can drop its parentheses:
+    # the flag must not reach tuples nested deeper in the slice expression.
+    if isinstance(node.slice, ast.Tuple):
+        kwargs["in_subscript"] = True
     if parse_strings:
         if isinstance(left, (ExprAttribute, ExprName)) and left.canonical_path in {
             "typing.Literal",
@@ -1123,11 +1127,10 @@ def _build_subscript(
             parent,
             parse_strings=True,
             literal_strings=literal_strings,
-            in_subscript=True,
             **kwargs,
         )
     else:
-        slice = _build(node.slice, parent, in_subscript=True, **kwargs)
+        slice = _build(node.slice, parent, **kwargs)
     return ExprSubscript(left, slice)
 
 
